@@ -103,6 +103,41 @@ def real_closure(h):
     return bool(env.goal_reached(state)), steps
 
 
+def real_search(h, cap=2500):
+    """Order-independent verdict: breadth-first search over the REAL environment
+    (generative_step, draws forced to succeed, every flat action).  Returns
+    (goal_found, complete, states)."""
+    env = h.env
+    env.reset()
+    start = env.current_state
+    seen = {start.tensor.tobytes()}
+    queue = [start]
+    seeds = []
+    for a in h.real_actions:
+        if a.prob <= 0:
+            seeds.append(None)
+        else:
+            r = draws.seed_for(float(a.prob), "lo", 0) if a.prob < 1 else (0, 0)
+            seeds.append(None if r is None else r[0])
+    while queue:
+        state = queue.pop(0)
+        for a, sd in zip(h.real_actions, seeds):
+            if sd is None:
+                continue
+            np.random.seed(sd)
+            ns, obs, rew, done, info = env.generative_step(state, a)
+            k = ns.tensor.tobytes()
+            if k in seen:
+                continue
+            if done or env.goal_reached(ns):
+                return True, True, len(seen)
+            if len(seen) >= cap:
+                return False, False, len(seen)
+            seen.add(k)
+            queue.append(ns)
+    return False, True, len(seen)
+
+
 def nontrivial(spec, plan):
     st = spec.initial()
     pivot = esc = False
@@ -165,6 +200,20 @@ def run_source(source, rep, record=True):
             if record:
                 rep.count("real-closure-used")
             if not solved:
+                # the closure assumes that the order of actions does not matter; confirm with a search
+                found, complete, nstates = real_search(h)
+                if record:
+                    rep.count("real-search-used")
+                if found:
+                    solved = True
+                    if record:
+                        rep.count("solvable-only-in-a-particular-order(other property)")
+                elif not complete:
+                    solved = True
+                    if record:
+                        rep.count("inconclusive:search-capped")
+                        rep.inconclusive.append(f"{source}: real search capped at {nstates} states")
+            if not solved:
                 raise Failure("C16:unsolvable", f"no action sequence reaches the goal: model fix-point reached goal={spec.goal(st)}, "
                               f"closure of the real environment over all flat actions ({steps} generative steps, draws forced to "
                               f"succeed) does not reach the goal; sensitive hosts {list(spec.sensitive)}")
@@ -172,6 +221,9 @@ def run_source(source, rep, record=True):
             rep.count("source:" + source["kind"])
             if len(rep.samples) < rep.max_samples:
                 rep.sample(dict(source=source, hosts=len(spec.addrs), plan=[repr(a) for a in plan][:25], verdict=verdict or "closure"))
+    except walk.SourceRejected as e:
+        if record:
+            rep.count(f"source-rejected({e.owner})")
     except Failure as f:
         failed.add(f.bucket)
         if record:
@@ -217,7 +269,7 @@ def main(tier, replay=None):
             for s in ((0, 1, 2) if tier == "thorough" else (0,)):
                 run_source({"kind": "gen", "params": dict(q, seed=s)}, rep)
     nshards = 16 if tier == "thorough" else 8
-    total = 16 * 300 if tier == "thorough" else 240
+    total = 16 * 400 if tier == "thorough" else 800
     for part in engine.run_shards(_shard, nshards, common.verif_seed(), tier=tier, n_cases=total // nshards):
         rep.merge(part)
     return rep.finish()
